@@ -13,6 +13,7 @@ package dptdec
 
 import (
 	"fmt"
+	"math"
 	"reflect"
 	"unicode/utf8"
 )
@@ -182,6 +183,16 @@ func num(v reflect.Value) (float64, bool) {
 
 // within: lo-tol <= value <= hi+tol. tol is half a quantisation step for the scaled types (their
 // bounds are not binary fractions) and 0 elsewhere.
+// ulp32 is the distance between x and the next float32 above it. Range bounds that a float32
+// represents exactly (0, 100, 360) are checked without tolerance: the mathematical value at the end of
+// the wire range is the bound itself, so a decoder that returns the next float32 beyond it is out of
+// range. Decimal bounds that no float32 represents (327.68, 3276.8) get one ulp, the distance a
+// correctly rounded result may lie on either side of them.
+func ulp32(x float64) float64 {
+	f := float32(x)
+	return float64(math.Nextafter32(f, float32(math.Inf(1)))) - float64(f)
+}
+
 func within(lo, hi, tol float64) func(reflect.Value) string {
 	return func(v reflect.Value) string {
 		f, ok := num(v)
@@ -271,8 +282,8 @@ func init() {
 		addSpec(&typeSpec{name: n, family: "1.xxx", length: 1, class: clBit, exact: true, canon: canonB1, inRange: anyValue, rangeDoc: "{false,true}"})
 	}
 	// 5.xxx
-	addSpec(&typeSpec{name: "5.001", family: "5.001", length: 2, class: clScaled, inRange: within(0, 100, 100.0/255/2), rangeDoc: "0..100 %"})
-	addSpec(&typeSpec{name: "5.003", family: "5.003", length: 2, class: clScaled, inRange: within(0, 360, 360.0/255/2), rangeDoc: "0..360 deg"})
+	addSpec(&typeSpec{name: "5.001", family: "5.001", length: 2, class: clScaled, inRange: within(0, 100, 0), rangeDoc: "0..100 %"})
+	addSpec(&typeSpec{name: "5.003", family: "5.003", length: 2, class: clScaled, inRange: within(0, 360, 0), rangeDoc: "0..360 deg"})
 	for _, n := range names(5, 4, 5) {
 		addSpec(&typeSpec{name: n, family: "5.xxx", length: 2, class: clInt, exact: true, canon: canonKeep, inRange: within(0, 255, 0), rangeDoc: "0..255"})
 	}
@@ -286,9 +297,9 @@ func init() {
 	for _, n := range names(8, 1, 2, 5, 6, 7, 11) {
 		addSpec(&typeSpec{name: n, family: "8.xxx", length: 3, class: clInt, exact: true, canon: canonKeep, inRange: within(-32768, 32767, 0), rangeDoc: "-32768..32767"})
 	}
-	addSpec(&typeSpec{name: "8.003", family: "8.003", length: 3, class: clScaled, inRange: within(-327.68, 327.67, 0.005), rangeDoc: "-327.68..327.67"})
-	addSpec(&typeSpec{name: "8.010", family: "8.010", length: 3, class: clScaled, inRange: within(-327.68, 327.67, 0.005), rangeDoc: "-327.68..327.67"})
-	addSpec(&typeSpec{name: "8.004", family: "8.004", length: 3, class: clScaled, inRange: within(-3276.8, 3276.7, 0.05), rangeDoc: "-3276.8..3276.7"})
+	addSpec(&typeSpec{name: "8.003", family: "8.003", length: 3, class: clScaled, inRange: within(-327.68, 327.67, ulp32(327.68)), rangeDoc: "-327.68..327.67"})
+	addSpec(&typeSpec{name: "8.010", family: "8.010", length: 3, class: clScaled, inRange: within(-327.68, 327.67, ulp32(327.68)), rangeDoc: "-327.68..327.67"})
+	addSpec(&typeSpec{name: "8.004", family: "8.004", length: 3, class: clScaled, inRange: within(-3276.8, 3276.7, ulp32(3276.8)), rangeDoc: "-3276.8..3276.7"})
 	// 9.xxx F16
 	f16 := func(n string, lo, hi float64) {
 		addSpec(&typeSpec{name: n, family: "9.xxx", length: 3, class: clFloat16, inRange: within(lo, hi, 0), rangeDoc: fmt.Sprintf("%v..%v", lo, hi)})
